@@ -59,7 +59,7 @@ LEVEL_TEXT = (
 )
 TRUSTED = [
     "CPython ast / re (re._parser) / urllib.parse.unquote applied to constants of the source and of the scenarios",
-    "the symbolic interpreter in wzsa/rules/_c04_helpers.py: Python semantics of the subset it models; anything else aborts with ANALYSIS-ERROR",
+    "the symbolic interpreter in wzsa/rules/_c04_helpers.py: Python semantics of the subset it models (incl. generators and the itertools iterators takewhile / dropwhile / filterfalse / starmap / chain / islice / zip_longest / accumulate / pairwise / compress / groupby over interpreted callables and objects, element by element as lazily as the real ones; a condition on the same opaque values evaluated twice on one path has one answer); anything else aborts with ANALYSIS-ERROR",
     "library contracts used as inverse pairs: int(str(int(v)).zfill(n)) == v, float(str(float(v))) == v, uuid.UUID(str(u)) == u, unquote(quote(s, safe)) == s",
 ]
 ASSUMPTIONS = [
